@@ -10,6 +10,8 @@ structure ArenaSt where
   blocks : List (Nat × Addr × Nat) := []      -- live: (id, address, size), allocation order
   sizes : List (Nat × Nat) := []              -- heap kind: (id, size)
   nextId : Nat := 0
+  deferLen : Nat := 0                         -- scope kind: the defer stack's length and capacity (0 = not created)
+  deferCap : Nat := 0
 
 def ArenaSt.g (s : ArenaSt) : Nat → Nat := fun c => s.g8 * c / 8
 
@@ -69,6 +71,20 @@ def arenaStep (s : ArenaSt) (toks : List String) : ArenaSt × String :=
         let r := Gpc.Arena.realloc s.g s.a p old nsz
         ({ s with a := r.arena, blocks := s.blocks.filter (·.1 != id) ++ [(id, r.addr, nsz)] },
           s!"{r.addr.node} {r.addr.off}" ++ showTraffic s.a r.arena 0)
+    | _, _ => (s, "bad-op")
+  | ["defer", hdr, elem] =>
+    -- `gp_scope_defer`: the stack is created with room for 4 entries (header + 4 entries in one block of the
+    -- scope's arena) and doubled by a fresh block of `2 * capacity` entries when full
+    match hdr.toNat?, elem.toNat? with
+    | some hdr, some elem =>
+      if s.kind != "scope" || s.a.nodes.isEmpty then (s, "bad-op") else
+      if s.deferCap == 0 then
+        let (a', _) := Gpc.Arena.alloc s.g s.a (hdr + 4 * elem)
+        ({ s with a := a', deferLen := 1, deferCap := 4 }, "ok" ++ showTraffic s.a a' 0)
+      else if s.deferLen == s.deferCap then
+        let (a', _) := Gpc.Arena.alloc s.g s.a (s.deferCap * 2 * elem)
+        ({ s with a := a', deferLen := s.deferLen + 1, deferCap := s.deferCap * 2 }, "ok" ++ showTraffic s.a a' 0)
+      else ({ s with deferLen := s.deferLen + 1 }, "ok" ++ showTraffic s.a s.a 0)
     | _, _ => (s, "bad-op")
   | ["delete"] => ({}, "ok")
   | ["end"] => ({}, "end")
